@@ -17,7 +17,8 @@ from tagfam import _run_jobs
 
 FAMILY = ["C06", "C13", "C14", "C20"]
 FAMILY_FILES = ["harness/chkfam.py", "harness/chkrun.py", "harness/vlex.py", "harness/runfix.py", "harness/tagfam.py", "spec/CheckOps.tla", "spec/CheckReport.tla", "spec/CheckTrace.tla", "spec/CheckTrace.cfg",
-                "spec/MC_CheckReport.cfg", "spec/Mutant_CheckReport_BreakInSubphase.cfg"]
+                "spec/MC_CheckReport.cfg", "spec/Mutant_CheckReport_BreakInSubphase.cfg", "spec/FixSchedule.tla", "spec/MC_FixSchedule_quick.cfg", "spec/MC_FixSchedule_thorough.cfg",
+                "spec/Mutant_FixSchedule_LinesIgnored.cfg", "spec/Mutant_FixSchedule_OffByOne.cfg"]
 
 REJECTED_TEXT = "entity e is\n  port (a : in std_logic;\nend entity e\n\narchitecture a of e is\nbegin\n  process begin end end end;\n"
 
@@ -76,10 +77,12 @@ def _collect(tier):
     seed = common.seed()
     wd = orchestrate.workdir("chkfam_" + tier)
     design = []
-    for cfg, expect in (("MC_CheckReport.cfg", None), ("Mutant_CheckReport_BreakInSubphase.cfg", "C13_GatedIsPrefix")):
-        res = tlc.model_check("CheckReport", cfg, workers=16, timeout=1200)
+    for module, cfg, expect in (("CheckReport", "MC_CheckReport.cfg", None), ("CheckReport", "Mutant_CheckReport_BreakInSubphase.cfg", "C13_GatedIsPrefix"),
+                                ("FixSchedule", "MC_FixSchedule_quick.cfg" if tier == "quick" else "MC_FixSchedule_thorough.cfg", None),
+                                ("FixSchedule", "Mutant_FixSchedule_LinesIgnored.cfg", "Inv_C20_OnlyListed"), ("FixSchedule", "Mutant_FixSchedule_OffByOne.cfg", "Inv_C13_FixPhase")):
+        res = tlc.model_check(module, cfg, workers=16, timeout=1800)
         ok = res.ok if expect is None else ("Invariant %s is violated" % expect) in res.out
-        design.append({"module": "CheckReport", "cfg": cfg, "ok": ok, "states": res.states, "distinct": res.distinct, "expect": expect or "no error", "error": res.error[:300]})
+        design.append({"module": module, "cfg": cfg, "ok": ok, "states": res.states, "distinct": res.distinct, "expect": expect or "no error", "error": res.error[:300]})
     paths = [p for p in corpus.all_vhd()]
     base_inputs = [p for p in paths if p.endswith("_test_input.vhd") or "/styles/code_examples/" in p]
     q = tier == "quick"
@@ -224,7 +227,7 @@ def check(prop, tier):
                         "and compares report, last phase, rules ran, status; plus fix_phase N vs disabling phases > N; non-trivial = the file has violations",
                  "C14": "one CLI run (main()) per (files, format, severity configuration) with json, junit and quality report; non-trivial = at least one violation",
                  "C20": "one --fix_only run per (file, selection kind: none / all / one rule / one rule + lines / two rules); non-trivial = a selection that lists something"}[prop],
-        "design_models": r["design"] if prop == "C13" else [],
+        "design_models": r["design"] if prop in ("C13", "C20") else [],
         "records_by_type": st["records"],
         "gating_runs": st["gating_runs"],
         "from_cache": r.get("cached", False),
